@@ -1,6 +1,7 @@
 """Which harness modules decide which property."""
 PROPERTIES = {
     "C01": ["harness.C01_total"],
+    "C08": ["harness.C08_roundtrip"],
     "C09": ["harness.C09_ignored"],
     "C10": ["harness.C10_location"],
 }
